@@ -1,4 +1,5 @@
 import TunnoxModel.Driver.Util
+import TunnoxModel.Driver.C01
 import TunnoxModel.Model.C05
 namespace Tunnox.Drv.C05
 open Tunnox.C05
@@ -16,6 +17,8 @@ def parseObs (ts : List String) : Obs :=
     | _, _ => ⟨false, 0, 0⟩
   | _ => ⟨false, 0, 0⟩
 
-def runHolds (obsToks : List String) : String := boolStr (holds (parseObs obsToks))
+def runModel (ts : List String) : String := Tunnox.Drv.C01.runRawModel ts
+
+def runHolds (_caseToks obsToks : List String) : String := boolStr (holds (parseObs obsToks))
 
 end Tunnox.Drv.C05
